@@ -47,6 +47,13 @@ RewrittenSet(name, rep) ==
 (* the state a bias step started from: what the previous step handed on (the parsed state for the first) *)
 BeforeOf(o, k) == IF k = 1 THEN ParsedState(o) ELSE BiasEvents(o)[k-1].after
 
+(* the method's options that are not per-criterion data (policies, seeds, current choice, level function, distillation *)
+(* function) pass through every bias unchanged                                                                      *)
+OptionFields == {"CurrentChoice", "DrawResolution", "RandomSeed", "RandomAlternativesOrdering", "Function", "DistillationFun"}
+OptionsSame(s1, s2) ==
+  \A f \in OptionFields : (f \in DOMAIN s1.params) = (f \in DOMAIN s2.params) /\ (f \in DOMAIN s1.params => s1.params[f] = s2.params[f])
+HasParamsRecord(st) == DOMAIN st.params # {} /\ \A f \in DOMAIN st.params : f \in STRING
+
 C07Event(o, k, b) ==
   LET e == BiasEvents(o)[k]
       name == b.name
@@ -58,6 +65,7 @@ C07Event(o, k, b) ==
   IN (IF ValuesCoherent(after) THEN {} ELSE {BFail("C07", "values-incoherent", "")})
      \cup (IF Has(e, "probeEval") => (e.probeEval /\ e.probeRank) THEN {} ELSE {BFail("C07", "params-incoherent", "")})
      \cup (IF SplitSame(before, after) THEN {} ELSE {BFail("C07", "split-changed", "")})
+     \cup (IF OptionsSame(before, after) THEN {} ELSE {BFail("C07", "method-options-changed", "")})
      \cup (IF ~e.fired THEN (IF before = after THEN {} ELSE {BFail("C07", "skip-changed-state", "")})
            ELSE (IF StCritIds(before) \ StCritIds(after) = ReportedRemoved(name, rep)
                     /\ StCritIds(after) \ StCritIds(before) = ReportedAdded(name, rep)
